@@ -76,6 +76,11 @@ func inputClass(r *R, i int) byte {
 			return 'S'
 		}
 		return 'U'
+	case "handledindomain":
+		if i == 0 {
+			return 'S' // the domain
+		}
+		return 'U' // HandledInDomainWithMessage(err, domain, msg): a plain string
 	case "handled":
 		switch nin(r, 0) {
 		case 1:
